@@ -282,19 +282,20 @@ _dbus_mem_pool_alloc (DBusMemPool *pool)
               /* Need a new block */
               DBusMemBlock *block;
               int alloc_size;
+              int new_block_size = pool->block_size;
 #ifdef DBUS_ENABLE_EMBEDDED_TESTS
               int saved_counter;
 #endif
           
-              if (pool->block_size <= _DBUS_INT_MAX / 4) /* avoid overflow */
+              if (new_block_size <= _DBUS_INT_MAX / 4) /* avoid overflow */
                 {
                   /* use a larger block size for our next block */
-                  pool->block_size *= 2;
-                  _dbus_assert ((pool->block_size %
+                  new_block_size *= 2;
+                  _dbus_assert ((new_block_size %
                                  pool->element_size) == 0);
                 }
 
-              alloc_size = sizeof (DBusMemBlock) - ELEMENT_PADDING + pool->block_size;
+              alloc_size = sizeof (DBusMemBlock) - ELEMENT_PADDING + new_block_size;
 
 #ifdef DBUS_ENABLE_EMBEDDED_TESTS
               /* We save/restore the counter, so that memory pools won't
@@ -320,6 +321,8 @@ _dbus_mem_pool_alloc (DBusMemPool *pool)
               if (block == NULL)
                 return NULL;
 
+              /* only now is the pool's block size that of its newest block */
+              pool->block_size = new_block_size;
               block->used_so_far = 0;
               block->next = pool->blocks;
               pool->blocks = block;          
